@@ -33,6 +33,7 @@ SYNTH = [  # (pattern, replacement, delete_atoms, valence-consistent)
     ('[C:1][O;D1:2]', '[A:1].[A:2]', True, 1),                                      # bond removed, both atoms named
     ('[C;D3;z1:1]([O:2])([N:3])[C:4]', '[A;@@:1]([A:2])([A:3])[A:4]', True, 1),     # stereo override
     ('[C:1][O;D1:2]', '[A:1][S:2]', True, 1),
+    ('[C:1][Cl,Br;D1:2]', '[A:1][O:2]', True, 1),                                   # halide to alcohol (can make two substituents of a centre equal)
     ('[c:1][Cl,Br:2]', '[A:1][C:3]#[N:4]', True, 1),
     ('[C:1][O;D1:2]', '[A:1][A:2][C;h1:3]', True, 0),                               # a stated hydrogen count that is not the default one
 ]
@@ -92,13 +93,24 @@ def observe_apply(case):
         images = [sorted(mp.values()) for mp in maps]
         for k, mp in enumerate(maps[:case.get('maxmatch', 6)]):
             rec = {'kind': 'apply', 'exc': '', 'key': f"{case['key']}|match{k}", 'S': S, 'T': T, 'mu': [[a, b] for a, b in mp.items()], 'images': images, 'nprod': len(prods),
-                   'filtered': 1 if flt else 0, 'valid': case.get('valid', 0) if not m.check_valence() else 0, 'bad': 0, 'P': {'atoms': [], 'bonds': []}, 'Pp': {'atoms': [], 'bonds': [], 'rings': []}}
+                   'filtered': 1 if flt else 0, 'rt': 1, 'valid': case.get('valid', 0) if not m.check_valence() else 0, 'bad': 0, 'P': {'atoms': [], 'bonds': []}, 'Pp': {'atoms': [], 'bonds': [], 'rings': []}}
             if k < len(prods):
                 p = prods[k]
                 rec['P'] = numbered(p)
                 if not any(int(b._order) == 4 for *_, b in p.bonds()):   # the valence model of the spec reads Kekule forms
                     rec['Pp'] = mproj(p)
                 rec['bad'] = len(p.check_valence())
+                # the product must be what its own canonical text denotes (a label left on a centre that the edit made
+                # non-stereogenic disappears on reading: C02 holds for every molecule, so a difference is the patcher's)
+                try:
+                    from chython import smiles as _smiles
+                    q2 = _smiles(str(p))
+                    if case.get('thiele'):
+                        q2.kekule()
+                        q2.thiele(fix_tautomers=False)
+                    rec['rt'] = 1 if str(q2) == str(p) else 0
+                except Exception:
+                    rec['rt'] = 0
             out.append(rec)
     except Exception as e:
         out.append({'kind': 'apply', 'exc': type(e).__name__ + ':' + str(e)[:80], 'key': case['key'] + '|exc'})
@@ -215,6 +227,9 @@ def observe(case):
     return {'recs': {'apply': observe_apply, 'identity': observe_identity, 'doc': observe_doc, 'reactor': observe_reactor}[case['part']](case)}
 
 
+# centres / double bonds that an edit makes non-stereogenic (the label has to go), each at an even and an odd pool position
+DESYM = ['C[C@H](CCl)CO', 'C[C@H](CCl)CO', 'OC[C@H](C)CS', 'OC[C@H](C)CS', 'C/C=C(/CO)CCl', 'C/C=C(/CO)CCl', 'C[C@H](CBr)CO', 'C[C@H](CBr)CO', 'OC[C@@H](F)CCl', 'OC[C@@H](F)CCl',
+         'CC(=O)OC[C@H](C)CO', 'CC(=O)OC[C@H](C)CO', 'C[C@H](CO)CS', 'CC[C@](C)(CO)CCl', 'CC[C@](C)(CO)CCl']
 RINGY = ['C1CCSCC1', 'CC1CSCCN1C', 'C1CC2CCC1N2C', 'CN1CCCCC1', 'CN1CCC2CCCCC2C1', 'CSC1CCCS1', 'C1CSC2(CCCC2)S1', 'CN1C2CCC1CC(O)C2', 'CC(=O)N1CCCC1C(=O)O', 'COC1CCCO1',
          'C1COC2(CCCCC2)O1', 'CN(C)CC1CCCN1C', 'COC1OC(CO)C(O)C1O', 'ClC1CCC(Br)CC1O', 'O=C(N1CCCC1)c1ccccc1', 'CC(=O)NC1CCCCC1NC(C)=O', 'CSc1ccccc1', 'C1CC2(CSC2)C1',
          'N#Cc1ccc(Br)cc1', 'C=CC1CC=CCC1', 'C[C@H](O)[C@@H](N)C(=O)O', 'C[C@@H](Cl)[C@H](C)O', 'O[C@H]1CC[C@@H](Cl)CC1', 'N[C@@H](CO)C(=O)O', 'C[C@H](N)C(=O)N[C@@H](C)C(=O)O']
@@ -224,7 +239,7 @@ def run(ck):
     rnd = random.Random(ck.seed)
     files = {'tables.json': tables.all_tables_json()}
     corp = [s for s in chy.corpus() if len(s) < 60]
-    pool = chy.pick(corp, 60 if ck.quick else 700, ck.seed) + RINGY
+    pool = chy.pick(corp, 60 if ck.quick else 700, ck.seed) + RINGY + DESYM
     cases = []
     for ti, (p, r, d, valid) in enumerate(SYNTH):
         for k, s in enumerate(pool):
